@@ -348,12 +348,25 @@ def check(ctx, run):
     run.ob("R4", "C comparator folded: forwards (object1, object2) in order and converts the int answer with != 0", f.site, okc, witness=wit)
     f = prog.fn("MockCFunctionCopierNode::copy")
     run.analysed(f)
-    cs = [render(f, c) for c in f.calls()]
     pn = [p["name"] for p in f.params]
-    run.ob("R4", "C copier forwards (dst, src) in order", f.site, cs == ["copier_(%s, %s)" % (pn[0], pn[1])], witness=cs)
+    seen = []
+    ev = Evaluator(prog, f, env={pn[0]: 11, pn[1]: 22}, calls={"MockCFunctionCopierNode::copier_": lambda *a_: (seen.append(a_), 0)[1]})
+    try:
+        ev.run_blocks(f.entry, max_steps=100)
+    except Unknown as u:
+        seen.append("unknown: %s" % u)
+    run.ob("R4", "C copier folded: forwards (dst, src) in order, once", f.site, seen == [(11, 22)], witness=[str(x) for x in seen])
     f = prog.fn("MockCFunctionComparatorNode::valueToString")
-    rets = [render(f, f.node(n.get("value"))) for n in f.walk() if n["k"] == "ReturnStmt"]
-    run.ob("R4", "C comparator renders the object with the C toString function", f.site, len(rets) == 1 and "toString_(%s)" % f.params[0]["name"] in rets[0], witness=rets)
+    run.analysed(f)
+    seen = []
+    ev = Evaluator(prog, f, env={f.params[0]["name"]: 11}, calls=string_hooks({"MockCFunctionComparatorNode::toString_": lambda *a_: (seen.append(a_), ("str", "rendered-by-C"))[1]}))
+    try:
+        ev.run_blocks(f.entry, max_steps=200)
+        r = getattr(ev, "ret", None)
+    except Unknown as u:
+        r = "unknown: %s" % u
+    run.ob("R4", "C comparator folded: the object is rendered by the C toString function (asked once, with the object) and that text is the answer", f.site, seen == [(11,)] and r == ("str", "rendered-by-C"),
+           witness={"asked": [str(x) for x in seen], "returns": str(r)})
     cr = prog.fn("MockFailureReporterForInCOnlyCode::failTest")
     cpp = prog.fn("MockFailureReporter::failTest")
     for g in (cr, cpp):
